@@ -144,6 +144,8 @@ class IdentityGate(raw_types.Gate):
         return ('I',) * self.num_qubits()
 
     def _qasm_(self, args: cirq.QasmArgs, qubits: tuple[cirq.Qid, ...]) -> str | None:
+        if any(d != 2 for d in self._qid_shape):
+            return NotImplemented  # QASM has no qudit gates.
         args.validate_version('2.0', '3.0')
         return ''.join([args.format('id {0};\n', qubit) for qubit in qubits])
 
